@@ -473,6 +473,9 @@ func Encode(w io.Writer, file *File, arch binary.ByteOrder) error {
 	if err != nil {
 		return fmt.Errorf("encode failed: Header: %w", err)
 	}
+	// MarshalBinary has a value receiver, so the CRC it computes is lost:
+	// record it in the file's header as documented.
+	file.Header.CRC = dyncrc16.Checksum(hdr[:headerSizeNoCRC])
 
 	// Calculate file CRC
 	crc := dyncrc16.New()
